@@ -49,6 +49,7 @@ import EsbuildModel.Impl.StrLex
 import EsbuildModel.Impl.ResolveWalk
 import EsbuildModel.Impl.Glob
 import EsbuildModel.Impl.PartDepsDriver
+import EsbuildModel.Impl.ScopesSyntax
 
 open EsbuildModel
 
@@ -108,6 +109,7 @@ def dispatch (kernel : String) (args : List String) : String :=
   | "tspaths" => ResolveWalk.driver args
   | "glob" => Glob.driver args
   | "partdeps" => PartDeps.driver args
+  | "scope" => Scopes.driverAll args
   | _ => "bad-kernel"
 
 partial def loop (hin hout : IO.FS.Stream) : IO Unit := do
